@@ -61,6 +61,10 @@ def run(prop, tier, seed, t0):
     results_by_engine = {}
     for eng, bundles in groups.items():
         last = [0]
+        # deterministic shuffle: when the wall budget truncates a run, what did run is a sample across all blocks of the
+        # plan (and not its first blocks only); with the pool of 16 it also balances long and short bundles
+        import random
+        random.Random(seed * 7919 + len(bundles)).shuffle(bundles)
 
         def progress(i, n):
             if time.time() - last[0] > 30:
